@@ -202,7 +202,9 @@ namespace c07
       double f = sc[t.pick({5, 1, 1, 1})];
       if(f != 1.0) { for(auto& r : s.rows) for(auto& kv : r) kv.second *= f; s.lmin *= f * (1 - 1e-12); s.lmax *= f * (1 + 1e-12); s.mu *= f * (1 - 1e-12); s.sigma *= f * (1 + 1e-12); s.cls += "-scaled"; }
     }
-    s.generic = (vcls == 2 && maxk >= 1 && n >= 3);
+    // "generic": real-valued couplings and at most one uncoupled row (uncoupled rows all carry the same diagonal value, i.e. a
+    // multiple eigenvalue; false alarm seen: the 5x5 identity labelled generic, BiCGStab(1) 0/0 after its exact first step)
+    { int iso = 0; for(int i = 0; i < n; ++i) if(ra[(size_t)i] == 0.0 && ca[(size_t)i] == 0.0) ++iso; s.generic = (vcls == 2 && n >= 3 && iso <= 1); }
     return s;
   }
 
